@@ -58,6 +58,8 @@ def rnumber(r):
 
 def rsigned(r):
     v = rnumber(r)
+    if r.random() < 0.03:
+        return r.choice([D('-0'), D('-0.00'), D('-0E+2')])       # negative zeros (what rounding a tiny negative amount gives)
     return v.copy_negate() if r.random() < 0.3 and v != 0 else v
 
 
